@@ -23,12 +23,15 @@ What is proved here (all for values of unbounded size and depth, by structural i
     (wrapper recognition by the `type` member, number precision through float64, counters,
     dedup counters, base64, dates, text runs with attributes, trees with attributes).
 * `rebuild_partial` – every well-formed `RebuildSafe` value survives SetYSON → FromCRDT.
-* one `…_witness` per unsafe shape: the text-level round trip of a concrete value fails,
-  by kernel evaluation of the model.
+* `unmarshal_never_panics` – no text at all makes the model of `Unmarshal` panic.
+* one `…_witness` per remaining unsafe shape: the text-level round trip of a concrete value
+  fails, by kernel evaluation of the model; one `…_v0_witness` per REPAIRED shape: the old
+  code (Model/YsonV0.lean) failed on the value, the current code does not.
 Nothing of the text layer is trusted: the trusted base is the model's correspondence with
 the Go code (differential replay) and the items listed in props.d/C18.py.
 -/
 import YorkieModel.Lemmas.YsonRoundTrip
+import YorkieModel.Lemmas.YsonNoPanic
 import YorkieModel.Model.YsonV0
 namespace Yorkie.Props.C18
 open Yorkie.Yson
@@ -84,15 +87,20 @@ theorem yson_member_roundtrip_partial (v : Yson) (hw : v.wf = true)
     (hs : (atoms v).all Atom.safe = true) : parseMember (toJ v) = .ok v :=
   parseMember_toJ v hw hs
 
-/-- integers of magnitude ≤ 2^53 are never the problem -/
-theorem long_safe_of_small (n : Int) (h : n.natAbs ≤ 2 ^ 53) : (Atom.long n).safe = true := by
-  simp [Atom.safe, Tag.all, Atom.hits, i64OfInt_eq_of_small h]
+/-- since the UseNumber / checked-assertions fix `Unmarshal` (model) panics on NO text at all:
+every outcome is a value or one of the fixed errors -/
+theorem unmarshal_never_panics (wantObj : Bool) (text : Str) :
+    ∀ g w, parse wantObj text ≠ .panic g w := by
+  intro g w h
+  have := parse_calm wantObj text
+  rw [h] at this
+  exact this
 
 /-! ### non-vacuity: a nested value with every element kind satisfies the hypotheses -/
 
 def sample : Yson :=
   .obj [
-    (cp%"a", .arr [.null, .bool true, .int (-7), .long 9007199254740992, .double (.fin cp%"1e+21"),
+    (cp%"a", .arr [.null, .bool true, .int (-7), .long 9007199254740993, .long 9223372036854775807, .double (.fin cp%"1e+21"),
                    .str cp%"q\"uo\\te\n(é) Int(5) Text() BinData(", .bytes [1, 2, 255], .date cp%"2020-01-02T03:04:05.006+09:00"]),
     (cp%"c", .counter (.long (-(2 ^ 63)))),
     (cp%"d", .counter (.dedup 3 [0, 1, 2])),
@@ -109,28 +117,40 @@ example : (roundTrip sample).isOk sample = true := by decide +kernel
 
 /-! ### negation witnesses (text level: `roundTrip v ≠ .ok v`), one per unsafe shape -/
 
+/-! repaired by the UseNumber fix (numbers decoded as json.Number, strconv.ParseInt): the
+statements below are about the OLD tree-level parser (`V0Float`, Model/YsonV0.lean: numbers
+through float64, unchecked assertions) and keep the repaired defects on record; with the
+current parser the same values round-trip (or give an error instead of a panic). -/
+
 def wLong : Yson := .obj [(cp%"a", .long 9007199254740993)]
-/-- (a) `Long(9007199254740993)` comes back as `…992` -/
-theorem long_precision_witness : wLong.wf = true ∧ roundTrip wLong ≠ .ok wLong
-    ∧ (roundTrip wLong).isOk (.obj [(cp%"a", .long 9007199254740992)]) = true :=
-  ⟨by decide, Res.ne_ok_of_isOk_false (by decide), by decide⟩
+/-- OLD parser: `Long(9007199254740993)` came back as `…992`; now it survives -/
+theorem long_precision_v0_witness : wLong.wf = true ∧ V0Float.roundTrip wLong ≠ .ok wLong
+    ∧ (V0Float.roundTrip wLong).isOk (.obj [(cp%"a", .long 9007199254740992)]) = true
+    ∧ roundTrip wLong = .ok wLong :=
+  ⟨by decide, Res.ne_ok_of_isOk_false (by decide), by decide,
+   yson_roundtrip_partial _ (Or.inl rfl) (by decide) (by decide)⟩
 
 def wCounterLong : Yson := .obj [(cp%"a", .counter (.long 9223372036854775807))]
-/-- the same inside `Counter(Long(…))`; MaxInt64 comes back as MinInt64 (amd64 conversion) -/
-theorem counter_long_precision_witness : wCounterLong.wf = true ∧ roundTrip wCounterLong ≠ .ok wCounterLong
-    ∧ (roundTrip wCounterLong).isOk (.obj [(cp%"a", .counter (.long (-9223372036854775808)))]) = true :=
-  ⟨by decide, Res.ne_ok_of_isOk_false (by decide), by decide⟩
+/-- OLD parser: inside `Counter(Long(…))` MaxInt64 came back as MinInt64 (amd64 conversion) -/
+theorem counter_long_precision_v0_witness : wCounterLong.wf = true
+    ∧ V0Float.roundTrip wCounterLong ≠ .ok wCounterLong
+    ∧ (V0Float.roundTrip wCounterLong).isOk (.obj [(cp%"a", .counter (.long (-9223372036854775808)))]) = true
+    ∧ roundTrip wCounterLong = .ok wCounterLong :=
+  ⟨by decide, Res.ne_ok_of_isOk_false (by decide), by decide,
+   yson_roundtrip_partial _ (Or.inl rfl) (by decide) (by decide)⟩
+
+def wTypePanic : Yson := .obj [(cp%"o", .obj [(cp%"type", .str cp%"Int"), (cp%"value", .str cp%"x")])]
+/-- OLD parser: `{"type":"Int","value":"x"}` made Unmarshal panic (unchecked type assertion);
+now it is the error `parse int: invalid YSON` (the `type`-member ambiguity itself remains) -/
+theorem type_member_panic_v0_witness : wTypePanic.wf = true
+    ∧ (match V0Float.roundTrip wTypePanic with | .panic .string .float64 => true | _ => false) = true
+    ∧ (match roundTrip wTypePanic with | .err .parseInt => true | _ => false) = true :=
+  ⟨by decide, by decide, by decide⟩
 
 def wType : Yson := .obj [(cp%"o", .obj [(cp%"type", .str cp%"Counter")])]
 /-- (b) a nested user object `{"type":"Counter"}` is taken for a wrapper: Unmarshal fails -/
 theorem type_member_witness : wType.wf = true ∧ roundTrip wType ≠ .ok wType :=
   ⟨by decide, Res.ne_ok_of_isOk_false (by decide)⟩
-
-def wTypePanic : Yson := .obj [(cp%"o", .obj [(cp%"type", .str cp%"Int"), (cp%"value", .str cp%"x")])]
-/-- `{"type":"Int","value":"x"}` makes Unmarshal panic (unchecked type assertion) -/
-theorem type_member_panic_witness : wTypePanic.wf = true ∧ roundTrip wTypePanic ≠ .ok wTypePanic
-    ∧ (match roundTrip wTypePanic with | .panic .string .float64 => true | _ => false) = true :=
-  ⟨by decide, Res.ne_ok_of_isOk_false (by decide), by decide⟩
 
 def wTypeSilent : Yson := .obj [(cp%"o", .obj [(cp%"type", .str cp%"BinData"), (cp%"value", .str cp%"AAAA")])]
 /-- `{"type":"BinData","value":"AAAA"}` silently becomes the three zero bytes -/
